@@ -7,14 +7,18 @@ Successive `execute()` calls on one executor object and the shared full cache wi
 (any interleaving of the workers' atomic `cache_outputs` / `cache_jacobian` calls) are covered too,
 and so are tasks that are *not* pure: calls of `_Functor.__call__` on discipline objects, which read and
 write the execution status of the object and may overwrite the input array it holds (last section).
+The last section is about the *sequential counterparts* of two users of the pool: histories of calls on one parallel
+gradient approximator whose function takes keyword arguments, and the Jacobian / data of a parallel chain assembled
+from its disciplines when an output is computed by several of them.
 Helper lemmas (invariants, measure) are in `Lemmas/C13Pool.lean`, `Lemmas/C13Doe.lean`,
-`Lemmas/C13Session.lean`, `Lemmas/C13Cache.lean`.
+`Lemmas/C13Session.lean`, `Lemmas/C13Cache.lean`, `Lemmas/C13Effects.lean`, `Lemmas/C13Seq.lean`.
 -/
 import GemseoVerif.Lemmas.C13Pool
 import GemseoVerif.Lemmas.C13Doe
 import GemseoVerif.Lemmas.C13Session
 import GemseoVerif.Lemmas.C13Cache
 import GemseoVerif.Lemmas.C13Effects
+import GemseoVerif.Lemmas.C13Seq
 
 namespace GV.C13
 
@@ -839,5 +843,181 @@ example : (run? exCfgStop (init exCfgStop)
     [.submit, .submit, .submit, .take 0, .take 1, .finish 1, .collect, .shutdown, .take 1, .finish 1,
      .finish 0, .take 0, .take 1]).map (fun s => (s.final, s.result, s.cbLog))
     = some (true, .raised, []) := by decide
+
+/-! ### Sequential counterparts: gradient approximators with keyword arguments, chain Jacobians -/
+
+section SEQ
+
+variable {κ ξ ν ρ : Type}
+
+/-- **A parallel call evaluates the function with the keyword arguments of THIS call**, whatever the object held
+    before (any earlier calls), for every worker count ≥ 1 and **every complete schedule** of the pool: the list
+    handed back to the approximator is `[f(p, **kw) for p in points]`, the one the sequential branch computes. -/
+theorem parallel_call_evaluates_with_its_own_kwargs (c : ACfg κ ξ ν ρ) (nProcs : Nat) (s : AState κ ρ)
+    (op : AOp κ ξ) (pool : State ν)
+    (hreach : Reachable (approxPool c nProcs (storeKw s op) (c.pts s.step op)) pool)
+    (hfinal : pool.final = true) :
+    pool.result = .returned ((c.pts s.step op).map (fun p => some (c.f p op.kw))) := by
+  rw [returns_seqMap_of_no_stop_task _ pool hreach hfinal (approxPool_no_stop c nProcs _ _), approxPool_seqMap]
+  rfl
+
+/-- One parallel call (pool represented by its sequential map) = one sequential call: same result, same next step. -/
+theorem parStep_eq_seqStep (c : ACfg κ ξ ν ρ) (nProcs : Nat) (s : AState κ ρ) (op : AOp κ ξ) :
+    (parStep c nProcs s op).2 = (seqStep c s.step op).2 ∧
+      (parStep c nProcs s op).1.step = (seqStep c s.step op).1 := by
+  constructor <;> simp [parStep, parStepWith, seqStep, approxPool_seqMap, storeKw]
+
+/-- **Parallel derivative approximation = sequential, over whole histories on one object**: any list of
+    `f_gradient(x, **kw)` / `compute_optimal_step(x, **kw)` calls with any keyword arguments (changing or not between the
+    calls), from ANY state of the object (whatever `_function_kwargs` earlier calls left), any worker count: the
+    results (Jacobians, optimal steps) are those of the sequential approximator started with the same step. -/
+theorem approximator_history_parallel_eq_sequential (c : ACfg κ ξ ν ρ) (nProcs : Nat) (s : AState κ ρ)
+    (ops : List (AOp κ ξ)) :
+    parRun c nProcs s ops = seqRun c s.step ops := by
+  induction ops generalizing s with
+  | nil => rfl
+  | cons op ops ih =>
+    have h := parStep_eq_seqStep c nProcs s op
+    simp only [parRun, parRunWith, seqRun]
+    have ih' := ih (parStepWith storeKw c nProcs s op).1
+    simp only [parRun] at ih'
+    rw [ih']
+    simp only [parStep] at h
+    rw [h.1, h.2]
+
+/-- The same with the real pool: every call of the history runs under an arbitrary complete schedule
+    (`ParHist`: some reachable final state of the worker pool that returned). -/
+theorem approximator_history_any_schedules (c : ACfg κ ξ ν ρ) (nProcs : Nat) (s : AState κ ρ)
+    (ops : List (AOp κ ξ)) (rs : List ρ) (h : ParHist c nProcs s ops rs) :
+    rs = seqRun c s.step ops := by
+  induction h with
+  | nil s => rfl
+  | cons s op ops outs rs pool hreach hfinal hres hrest ih =>
+    have hr := parallel_call_evaluates_with_its_own_kwargs c nProcs s op pool hreach hfinal
+    rw [hres] at hr
+    injection hr with hr
+    subst hr
+    simp only [seqRun, seqStep]
+    rw [ih]
+
+/-- Such histories exist for every list of calls (at least one worker): the statement above is not vacuous. -/
+theorem approximator_history_exists (c : ACfg κ ξ ν ρ) (nProcs : Nat) (hp : 1 ≤ nProcs) (s : AState κ ρ)
+    (ops : List (AOp κ ξ)) : ∃ rs, ParHist c nProcs s ops rs := by
+  induction ops generalizing s with
+  | nil => exact ⟨[], .nil s⟩
+  | cons op ops ih =>
+    obtain ⟨pool, hreach, hfinal⟩ :=
+      exists_final (approxPool c nProcs (storeKw s op) (c.pts s.step op)) hp
+    have hr := parallel_call_evaluates_with_its_own_kwargs c nProcs s op pool hreach hfinal
+    obtain ⟨rs, hrs⟩ := ih { storeKw s op with step := nextStep s.step op (c.combine s.step op _) }
+    exact ⟨_, .cons s op ops _ rs pool hreach hfinal hr hrs⟩
+
+/-- Forward differences of `scale (c0 + c1 x + q x²) + shift` with step `h` (one input, one output); the result of
+    `compute_optimal_step` is abstracted to the pair of exact quantities its formula uses, `f(x)` and the second
+    difference, packed as `f(x) + 1000 (f(x+h) - 2 f(x) + f(x-h))`. -/
+def exA : ACfg (Rat × Rat) Rat Rat Rat :=
+  { f := fun x kw => polyF 1 2 1 x kw
+    gradPts := fun h x => [x, x + h]
+    gradOf := fun h _ vs => match vs with
+      | [some f0, some f1] => (f1 - f0) / h
+      | _ => 0
+    optPts := fun h x => [x, x + h, x - h]
+    optOf := fun _ _ vs => match vs with
+      | [some f0, some fp, some fm] => f0 + 1000 * (fp - 2 * f0 + fm)
+      | _ => 0 }
+
+/-- `f_gradient(1, scale=1)`, `compute_optimal_step(1, scale=40, shift=3)`, `f_gradient(1, scale=40, shift=3)`. -/
+def exAOps : List (AOp (Rat × Rat) Rat) := [.grad 1 (1, 0), .optStep 1 (40, 3), .grad 1 (40, 3)]
+
+example : parRun exA 2 ⟨(0, 0), 1 / 2⟩ exAOps = seqRun exA (1 / 2) exAOps := by decide +kernel
+
+/-- The seeded change r3m1 in the model: `compute_optimal_step` does not store its keyword arguments; the pool then
+    evaluates with `scale=1` and the result of the second call differs from the sequential one. -/
+example : parRunWith storeKwGradOnly exA 2 ⟨(0, 0), 1 / 2⟩ exAOps ≠ seqRun exA (1 / 2) exAOps := by decide +kernel
+
+variable {V B : Type}
+
+/-- **The chain Jacobian of an output is the slot of its LAST producer** among the disciplines whose linearization
+    succeeded — an entry or *nothing* (then `_init_jacobian` fills zero blocks), never the entry of an earlier
+    discipline.  Any number of disciplines, any output grammars (shared names, repeated names), any slots. -/
+theorem chain_jacobian_is_last_producers (ds : List (DiscLin V B)) (o : Nat) :
+    mergeJac ds o = (lastProducer (fun d => d.jac.isSome) ds o).bind (fun d => slotJac d o) := by
+  unfold mergeJac
+  rw [foldl_mergeOne_apply]
+  cases lastProducer (fun d => d.jac.isSome) ds o <;> rfl
+
+/-- **The chain data of an output is the value of its last producer.** -/
+theorem chain_data_is_last_producers (ds : List (DiscLin V B)) (o : Nat) :
+    mergeData ds o = (lastProducer (fun _ => true) ds o).map (fun d => d.val o) := by
+  unfold mergeData
+  rw [foldl_mergeData_apply]
+  cases lastProducer (fun _ => true) ds o <;> rfl
+
+/-- **Data and Jacobian come from the same discipline**: when no linearization failed, the discipline whose value is
+    `chain.io.data[o]` is the one whose slot is `chain.jac[o]`. -/
+theorem chain_data_and_jacobian_from_same_discipline (ds : List (DiscLin V B)) (o : Nat)
+    (hok : ∀ d ∈ ds, d.jac.isSome = true) :
+    mergeData ds o = (lastProducer (fun _ => true) ds o).map (fun d => d.val o) ∧
+      mergeJac ds o = (lastProducer (fun _ => true) ds o).bind (fun d => slotJac d o) := by
+  refine ⟨chain_data_is_last_producers ds o, ?_⟩
+  rw [chain_jacobian_is_last_producers,
+    lastProducer_congr (fun d => d.jac.isSome) (fun _ => true) ds o (fun d hd => hok d hd)]
+
+/-- **Parallel chain Jacobian = derivative of the chain data** (the sequential chain's rule: the last discipline
+    computing an output wins).  `coef d o i` is the true derivative of output `o` of discipline `d` with respect to
+    input `i` (`0` when `d` does not depend on `i`).  Disciplines are *honest*: every block they return is the true one
+    (`hsound`) and a non-zero block of the pair `(o, i)` is returned (`hcomplete`: requested pairs) — they may return
+    nothing at all for `o`, or no block for `i`, when the derivative is zero (a discipline that does not depend on the
+    differentiated inputs), and more blocks than requested.  Then block `(o, i)` of the chain Jacobian after filling
+    is the coefficient of the LAST producer of `o`, `0` when nobody computes `o`. -/
+theorem parallel_chain_block_is_last_producers_coefficient (ds : List (DiscLin V Rat))
+    (coef : DiscLin V Rat → Nat → Nat → Rat) (o i : Nat)
+    (hok : ∀ d ∈ ds, d.jac.isSome = true)
+    (hsound : ∀ d ∈ ds, ∀ j b v, d.jac = some j → j o = some b → b i = some v → v = coef d o i)
+    (hcomplete : ∀ d ∈ ds, o ∈ d.outputs → coef d o i ≠ 0 →
+      ∃ j b, d.jac = some j ∧ j o = some b ∧ b i = some (coef d o i)) :
+    chainBlock (mergeJac ds) o i =
+      match lastProducer (fun _ => true) ds o with
+      | some d => coef d o i
+      | none => 0 := by
+  have h := (chain_data_and_jacobian_from_same_discipline ds o hok).2
+  unfold chainBlock
+  rw [h]
+  cases hl : lastProducer (fun _ => true) ds o with
+  | none => rfl
+  | some d =>
+    obtain ⟨hmem, _, hout⟩ := lastProducer_mem _ ds o d hl
+    simp only [Option.bind_some]
+    by_cases hz : coef d o i = 0
+    · -- whatever the discipline returned for the pair is the true block, i.e. zero; nothing returned: filled with zero
+      cases hj : d.jac with
+      | none => simp [slotJac, hj, hz]
+      | some j =>
+        cases hb : j o with
+        | none => simp [slotJac, hj, hb, hz]
+        | some b =>
+          cases hv : b i with
+          | none => simp [slotJac, hj, hb, hv, hz]
+          | some v =>
+            have := hsound d hmem j b v hj hb hv
+            simp [slotJac, hj, hb, hv, this]
+    · obtain ⟨j, b, hj, hb, hv⟩ := hcomplete d hmem hout hz
+      simp [slotJac, hj, hb, hv]
+
+/-- `D0: o = 2 x, p = x + 5` then `D1: o = 3 y + 1`, linearized with respect to `x` only (names: o = 0, p = 1, x = 0):
+    `D1` returns nothing for `o`. -/
+def exChainLin : List (DiscLin Rat Rat) :=
+  [ { outputs := [0, 1], val := fun o => if o = 0 then 3 else 13 / 2,
+      jac := some (fun o => if o = 0 then some (fun i => if i = 0 then some 2 else none)
+                            else if o = 1 then some (fun i => if i = 0 then some 1 else none) else none) },
+    { outputs := [0], val := fun _ => -5, jac := some (fun _ => none) } ]
+
+example : chainBlock (mergeJac exChainLin) 0 0 = 0 ∧ chainBlock (mergeJac exChainLin) 1 0 = 1 ∧
+    mergeData exChainLin 0 = some (-5) := by decide +kernel
+
+/-- The seeded change r3m2 in the model: without the `pop`, the block of the earlier producer stays. -/
+example : chainBlock (mergeJacKeep exChainLin) 0 0 = 2 := by decide +kernel
+
+end SEQ
 
 end GV.C13
